@@ -5,6 +5,7 @@ package tcx
 import (
 	"math/rand"
 	"reflect"
+	"sync"
 
 	"github.com/gdamore/tcell/v2"
 )
@@ -40,6 +41,12 @@ func field(v reflect.Value, name string) reflect.Value {
 // Style encodes a Style as <<fg, bg, attrs, ulstyle, ulcolour, url, urlid>>.
 // The fields are read by reflection because Style has no accessor for all of them.
 func Style(st tcell.Style) []interface{} {
+	intentMu.Lock()
+	t, ok := intents[st]
+	intentMu.Unlock()
+	if ok {
+		return t
+	}
 	v := reflect.ValueOf(st)
 	fg := tcell.Color(field(v, "fg").Uint())
 	bg := tcell.Color(field(v, "bg").Uint())
@@ -80,46 +87,101 @@ func RandColor(rng *rand.Rand, allowNone bool) tcell.Color {
 	}
 }
 
-// RandStyle builds a random style; rich selects underline styles/colours and URLs too.
+// intent is what a sequence of Style builder calls means according to their documentation, tracked next to the
+// Style value they produce.  Styles made by RandStyle are logged by their intent, not by what the struct holds, so
+// that the specifications compare the display with what the application asked for.
+type intent struct {
+	fg, bg, uc tcell.Color
+	at, us     int
+	url, id    string
+}
+
+func (n intent) tuple() []interface{} {
+	return []interface{}{Color(n.fg), Color(n.bg), n.at, n.us, Color(n.uc), bytesOf(n.url), bytesOf(n.id)}
+}
+
+var (
+	intentMu sync.Mutex
+	intents  = map[tcell.Style][]interface{}{}
+)
+
+func remember(st tcell.Style, n intent) tcell.Style {
+	intentMu.Lock()
+	intents[st] = n.tuple()
+	intentMu.Unlock()
+	return st
+}
+
+// RandStyle builds a random style through the builder methods (setting, clearing and overriding attributes);
+// rich selects underline styles/colours and URLs too.
 func RandStyle(rng *rand.Rand, rich, allowNone bool) tcell.Style {
 	if rng.Intn(4) == 0 {
 		return tcell.StyleDefault
 	}
-	st := tcell.StyleDefault.Foreground(RandColor(rng, allowNone)).Background(RandColor(rng, allowNone))
-	if rng.Intn(3) == 0 {
-		st = st.Bold(true)
+	var n intent
+	n.fg, n.bg = RandColor(rng, allowNone), RandColor(rng, allowNone)
+	st := tcell.StyleDefault.Foreground(n.fg).Background(n.bg)
+	if rng.Intn(6) == 0 { // background first, then an overriding foreground
+		n.fg = RandColor(rng, allowNone)
+		st = tcell.StyleDefault.Background(n.bg).Foreground(tcell.ColorRed).Foreground(n.fg)
 	}
-	if rng.Intn(5) == 0 {
-		st = st.Reverse(true)
+	type tog struct {
+		bit int
+		f   func(tcell.Style, bool) tcell.Style
+		p   int
 	}
-	if rng.Intn(7) == 0 {
-		st = st.Italic(true)
+	togs := []tog{
+		{1, tcell.Style.Bold, 3}, {4, tcell.Style.Reverse, 5}, {32, tcell.Style.Italic, 7}, {16, tcell.Style.Dim, 9},
+		{2, tcell.Style.Blink, 9}, {64, tcell.Style.StrikeThrough, 9},
 	}
-	if rng.Intn(9) == 0 {
-		st = st.Dim(true)
+	if rng.Intn(8) == 0 { // a mask first (never the underline bit: that is Underline's business)
+		n.at = []int{1, 4, 1 | 32, 2 | 16 | 64, 0}[rng.Intn(5)]
+		st = st.Attributes(tcell.AttrMask(n.at))
 	}
-	if rng.Intn(9) == 0 {
-		st = st.Blink(true)
+	for _, t := range togs {
+		if rng.Intn(t.p) == 0 {
+			n.at |= t.bit
+			st = t.f(st, true)
+		}
 	}
-	if rng.Intn(9) == 0 {
-		st = st.StrikeThrough(true)
+	if rng.Intn(6) == 0 { // switch one off again (set or not)
+		t := togs[rng.Intn(len(togs))]
+		n.at &^= t.bit
+		st = t.f(st, false)
 	}
 	if rich {
 		if rng.Intn(4) == 0 {
-			st = st.Underline(tcell.UnderlineStyle(1 + rng.Intn(5)))
-			if rng.Intn(2) == 0 {
-				c := RandColor(rng, false)
-				st = st.Underline(c)
+			switch rng.Intn(4) {
+			case 0:
+				n.us, n.at = 1, n.at|8
+				st = st.Underline(true)
+			case 1: // on, then off again
+				n.us, n.at = 0, n.at&^8
+				st = st.Underline(tcell.UnderlineStyleCurly).Underline(false)
+			default:
+				n.us, n.at = 1+rng.Intn(5), n.at|8
+				st = st.Underline(tcell.UnderlineStyle(n.us))
+			}
+			if rng.Intn(2) == 0 && n.us != 0 {
+				n.uc = RandColor(rng, false)
+				st = st.Underline(n.uc)
 			}
 		}
 		if rng.Intn(8) == 0 {
-			st = st.Url([]string{"http://a.b/", "x:y", "https://example.org/q?a=1"}[rng.Intn(3)])
+			n.url = []string{"http://a.b/", "x:y", "https://example.org/q?a=1"}[rng.Intn(3)]
+			st = st.Url(n.url)
 			if rng.Intn(2) == 0 {
-				st = st.UrlId([]string{"1", "k"}[rng.Intn(2)])
+				id := []string{"1", "k"}[rng.Intn(2)]
+				n.id = "id=" + id
+				st = st.UrlId(id)
 			}
 		}
+		if rng.Intn(25) == 0 { // Normal keeps the colours only
+			n = intent{fg: n.fg, bg: n.bg}
+			st = st.Normal()
+		}
 	}
-	return st
+	return remember(st, n)
 }
 
 // ColorFrom decodes <<kind, value>>.
